@@ -20,6 +20,7 @@ import Hv.Patch.NumLemmas
 import Hv.Patch.SpecRefine
 import Hv.Patch.Target
 import Hv.Patch.PatchFields
+import Hv.Patch.ErrorClassOps
 
 namespace Hv.C13
 open Hv.Patch
@@ -284,6 +285,31 @@ theorem apply_refines_spec {cfg : Cfg} (hv : cfg.validatesValues = true) (hc : c
   applyWithCondition_refines hv hparse hpaths
     (fun _ _ _ hf => by rw [hc] at hf; cases hf) hsize h
 
+/-- ERROR-CLASS AGREEMENT.  When the documented semantics (`Spec.refOps`) fail with class `c`, the
+    code's patch (condition absent or met) fails with the same class `c` — for every op kind,
+    provided (a) every MERGE value is one the code accepts and (b) no op of the patch runs on a
+    document an earlier op of the same patch spliced a container into (`NoSplice`; always true for
+    one-op patches, `noSplice_single`).  Outside (a)/(b) the classes are genuinely ambiguous or a
+    recorded finding: see `Hv.Patch.merge_rejected_class` and `witness_spliced_opaque`. -/
+theorem apply_error_class {cfg : Cfg} (hv : cfg.validatesValues = true) (hc : cfg.rmvalCanon = true)
+    {body : Bytes} {ops : List Op} {cond : Option Condition} {t : Node} {c : Err}
+    (hparse : parse body = .ok t)
+    (hcond : (match cond with | none => Except.ok () | some cd => evalCond cfg t cd) = .ok ())
+    (hpaths : ∀ op ∈ ops, op.path.length < 2 ^ 32) (hm : ∀ op ∈ ops, MergeAccepted op)
+    (hsize : maxCh t + totalGrowth cfg ops < 2 ^ 32) (hns : NoSplice cfg t ops)
+    (h : Spec.refOps t ops = .error c) :
+    applyWithCondition cfg body ops cond = .error c :=
+  applyWithCondition_error_class hv hparse hcond hpaths
+    (fun _ _ _ hf => by rw [hc] at hf; cases hf) hm hsize hns h
+
+/-- … and one op on a parsed document: complete agreement, result and error class alike -/
+theorem op_agrees {cfg : Cfg} (hv : cfg.validatesValues = true) (hc : cfg.rmvalCanon = true)
+    {body : Bytes} {t : Node} {op : Op} (hparse : parse body = .ok t) (hsize : maxCh t < 2 ^ 32)
+    (hm : MergeAccepted op) :
+    Except.map norm (stepOp cfg t op) = Spec.refOp t op :=
+  stepOp_agrees hv hsize (parse_wf hparse).2 (wf_WfB t (parse_wf hparse).1)
+    (fun _ hf => by rw [hc] at hf; cases hf) hm
+
 /-- REMOVE_VAL of a container element parsed from the body, and of one spliced in by the same patch -/
 example : applyWithCondition good [0x81, 0xa1, 0x74, 0x91, 0x91, 0x01] [⟨.removeVal, [0x74], [0x91, 0x01]⟩] none
       = .ok [0x81, 0xa1, 0x74, 0x90] ∧
@@ -494,6 +520,15 @@ def RefinesSpec (cfg : Cfg) : Prop :=
     maxCh t + totalGrowth cfg ops < 2 ^ 32 → applyWithCondition cfg body ops cond = .ok out →
     ∃ d, Spec.refOps t ops = .ok d ∧ parse out = .ok d
 
+/-- "… and fails the way the documented semantics fail": a documented failure of class `c` is a
+    failure of class `c` of the code (MERGE values the code accepts; no op after a same-patch splice) -/
+def ErrorClassAgrees (cfg : Cfg) : Prop :=
+  ∀ body ops cond t c, parse body = .ok t →
+    (match cond with | none => Except.ok () | some cd => evalCond cfg t cd) = .ok () →
+    (∀ op ∈ ops, op.path.length < 2 ^ 32) → (∀ op ∈ ops, MergeAccepted op) →
+    maxCh t + totalGrowth cfg ops < 2 ^ 32 → NoSplice cfg t ops →
+    Spec.refOps t ops = .error c → applyWithCondition cfg body ops cond = .error c
+
 /-- the same, restricted to op lists whose spliced values are valid -/
 def RefinesSpecPartial (cfg : Cfg) : Prop :=
   ∀ body ops cond out t, parse body = .ok t → (∀ op ∈ ops, op.path.length < 2 ^ 32) →
@@ -502,7 +537,8 @@ def RefinesSpecPartial (cfg : Cfg) : Prop :=
     ∃ d, Spec.refOps t ops = .ok d ∧ parse out = .ok d
 
 /-- full-strength statement of the property on the model -/
-def Holds (cfg : Cfg) : Prop := Common cfg ∧ SuccessWf cfg ∧ NanEqualNothing cfg ∧ RefinesSpec cfg
+def Holds (cfg : Cfg) : Prop :=
+  Common cfg ∧ SuccessWf cfg ∧ NanEqualNothing cfg ∧ RefinesSpec cfg ∧ ErrorClassAgrees cfg
 
 /-- what remains true while the findings stand -/
 def HoldsExcept (cfg : Cfg) : Prop := Common cfg ∧ SuccessWfPartial cfg ∧ RefinesSpecPartial cfg
@@ -544,7 +580,8 @@ theorem apply_refines_spec_unvalidated_partial {cfg : Cfg}
 theorem holds_of_good {cfg : Cfg} (hv : cfg.validatesValues = true) (hn : cfg.nan = .neverEqual)
     (hc : cfg.rmvalCanon = true) : Holds cfg :=
   ⟨common cfg, fun _ _ _ _ _ hp hpaths hsize h => apply_wf hv hp hpaths hsize h, nan_equal_nothing hn,
-   fun _ _ _ _ _ hp hpaths hsize h => apply_refines_spec hv hc hp hpaths hsize h⟩
+   fun _ _ _ _ _ hp hpaths hsize h => apply_refines_spec hv hc hp hpaths hsize h,
+   fun _ _ _ _ _ hp hcond hpaths hm hsize hns h => apply_error_class hv hc hp hcond hpaths hm hsize hns h⟩
 
 theorem holds_except (cfg : Cfg) : HoldsExcept cfg :=
   ⟨common cfg, fun _ _ _ _ _ hp hpaths hvals hsize h => apply_wf_partial hp hpaths hvals hsize h,
@@ -889,7 +926,7 @@ theorem classify_sound (f : Facts) : (classify f).Sound (Full f) (HoldsExcept (c
       · cases vv <;> cases nc <;> cases rv <;> simp [hasUnknown] at hu
         · exact not_nanEqualNothing_of_equal true fx _ hH.2.2.1
         · exact not_nanEqualNothing_of_equal true fx _ hH.2.2.1
-        · exact not_refinesSpec_of_scalar true .neverEqual fx hH.2.2.2
+        · exact not_refinesSpec_of_scalar true .neverEqual fx hH.2.2.2.1
         · exact hb (by simp [allGood, hs])
         · exact not_successWf_of_unvalidated .equal fx _ hH.2.1
         · exact not_successWf_of_unvalidated .equal fx _ hH.2.1
